@@ -55,13 +55,25 @@ def run(ctx, proof):
         nexpl = 2 ** n - n - 2
         k = rng.randint(0, min(nexpl - 1, 6))
         states.append((n, rng.sample(range(nexpl), k)))
+    # one solver object per registered name for the whole run, as evaluate() uses them (state kept on the solver
+    # object across episodes and hidden games must not influence a decision)
+    persistent = {name: SOLVERS[name](None) for name in sorted(names & MODELLED)}
+    # hidden games that coincide on everything initially revealed but differ elsewhere (factory games with different owners)
+    factory_states = []
+    for n in (4, 5):
+        for owner in rng.sample(range(n), 3):
+            factory_states.append((n, [], [float(games.popcount(sx) - 1) if (sx >> owner) & 1 else 0.0 for sx in range(2 ** n)]))
     lines, metas = [], []
-    for (n, pre) in states:
+    for (n, pre, *forced) in [(a, b) for (a, b) in states] + factory_states:
         comp = rng.choice(comps)
         gap = rng.choice(gaps)
         klass = "sam" if comp.startswith("sam") else "sa"
         r = rng.random()
-        if klass == "sa":
+        if forced:
+            comp = rng.choice(["superadditive", "superadditive_cached"])
+            gap = "exploitability"
+            v, exact = forced[0], True
+        elif klass == "sa":
             v, exact = (games.sa_closure_game(rng, n, rng.choice(["int", "dyadic"]), neg_singletons=False), True) if r < 0.7 else \
                 (campaign.repo_generator_game(rng, n, ["noisy_factory", "noisy_factory_square", "graph_random", "factory_cheerleader_next"])[0], False)
         else:
@@ -83,7 +95,8 @@ def run(ctx, proof):
         sizes = [len(env.explorable_coalitions[a]) for a in valid]
         decisions = {}
         for name in sorted(names & MODELLED):
-            solver = SOLVERS[name](None) if name != "random" else SOLVERS[name](None)
+            solver = persistent[name]
+            solver.after_reset(env)
             b = snapshot(env)
             act = int(solver.next_step(env))
             if snapshot(env) != b:
